@@ -441,4 +441,14 @@ def progNet {τ : Type} (P : Prog τ ε) (n cap : Nat) (blocking : Bool) (fuel :
 
 def progInit {τ : Type} (P : Prog τ ε) : Nat → Nat → τ := fun _ name => (P.fn name).init
 
+/-- the same program with every stream in context 0: "without contexts" -/
+def Prog.single {τ : Type} (P : Prog τ ε) : Prog τ ε :=
+  { P with streams := P.streams.map (fun sd => { sd with ctx := 0 }) }
+
+/-- the events of each type that a run shows: stream types from the global output channel, raw
+types from the inputs -/
+def byType {τ : Type} (P : Prog τ ε) (inputs : List ε) (out : List ε) (t : Nat) : List ε :=
+  if P.streams.any (fun sd => sd.name == t) then out.filter (fun e => P.ty e = t)
+  else inputs.filter (fun e => P.ty e = t)
+
 end Varpulis.Ctx
